@@ -48,7 +48,7 @@ pub fn dump_set<K: KeyT>(m: &Set<K>) -> String {
         }
         None => s.push_str(" a=-"),
     }
-    let _ = write!(s, " sing={}", d.singleton as u8);
+    let _ = write!(s, " sing={} salt={}", d.singleton as u8, m.hasher().salt);
     s
 }
 
@@ -542,6 +542,13 @@ pub fn run_set<K: KeyT>(lines: &[String], out: &mut String) {
         if w[0] == "arm" {
             apply_directive(&w);
             arms.push(line[4..].to_string());
+            continue;
+        }
+        // `B salt n`: the right-hand set gets a differently seeded hasher (both sets hash the same keys
+        // differently from now on); only meaningful while B is empty
+        if w.len() == 3 && w[0] == "B" && w[1] == "salt" {
+            let old = std::mem::replace(&mut b, HashSet::with_hasher_in(PlanBuild { salt: parse_u64(w[2]) }, Ledger::fresh()));
+            drop(old);
             continue;
         }
         step += 1;
